@@ -161,11 +161,20 @@ Definition lst_corr (async : bool) (own : pv) (init : mgr) (its : list item)
            (obs : list (list eff)) (fin : mgr) : bool :=
   match thread own async init its, run own async init its with
   | (s, effs, en), (s2, segs) =>
-      mgr_eqb s fin && mgr_eqb s2 fin &&
-      effs_eqb effs (List.concat obs) &&
-      segs_eqb ([EListen] :: segs ++ [[ELogErr]]) obs &&
-      match en with Exited => true | OutOfFuel => false end
+      match en with
+      | Exited =>
+          mgr_eqb s fin && mgr_eqb s2 fin &&
+          effs_eqb effs (List.concat obs) &&
+          segs_eqb ([EListen] :: segs ++ [[ELogErr]]) obs
+      | Stopped =>                         (* the model's listener ended on a CancelledError: the fold [run] does
+                                              not apply; the flat effect list and the state are compared *)
+          mgr_eqb s fin && effs_eqb effs (List.concat obs)
+      | OutOfFuel => false
+      end
   end.
+
+(* the observed listener read the channel to its end: its last act is the logger.error after the for loop *)
+Definition listener_finished (obs : list (list eff)) : bool := effs_eqb (last obs []) [ELogErr].
 
 Definition lst_prop (own : pv) (items : list (tag * item)) (obsA obsB : list (list eff)) (finA finB : mgr) : bool :=
   let segsA := middle obsA in
@@ -197,7 +206,8 @@ Definition c15_eval (c : c15case) : nat :=
       (bits (lst_corr async o init its obsA finA && lst_corr async o init itsB obsB finB)
             (lst_prop o items obsA obsB finA finB)
        + (if tags_justified o async init items then 0 else 4)
-       + (if counter_lost finA then 8 else 0))%nat
+       + (if counter_lost finA then 8 else 0)
+       + (if listener_finished obsA then 0 else 16))%nat
   | ApiMsg model observed => bits (pv_eqb model observed) true
   | RL channel script obs =>
       bits (list_eqb revent_eqb (listen_run channel script) obs)
@@ -218,7 +228,7 @@ Definition c15_eval (c : c15case) : nat :=
 (* shown by --replay: the clauses one by one
    [model=run A; model=run B; one segment per item; sentinels delivered; foreign acks and own echoes
     ignored; tagged messages ineffective; tags justified; no id generator lost (final state);
-    no counter-class message in the scenario] *)
+    no counter-class message in the scenario; the listener read the channel to its end] *)
 Definition c15_clauses (c : c15case) : list bool :=
   match c with
   | Lst async own init items obsA finA obsB0 finB0 =>
@@ -232,7 +242,7 @@ Definition c15_clauses (c : c15case) : list bool :=
        chk_sentinels items (middle obsA); chk_ignored o items (middle obsA);
        chk_inert items (middle obsA) (middle obsB) finA finB;
        tags_justified o async init items; negb (counter_lost finA);
-       negb (has_counter_class o async init items)]
+       negb (has_counter_class o async init items); listener_finished obsA]
   | _ => []
   end.
 
